@@ -499,6 +499,9 @@ func (r *svcRunner) do(op sOp) {
 	case "Register":
 		r.log.Ev("RegisterStart", tr.M{"i": op.I})
 		desc := fmt.Sprintf("# \u00e9\U0001d11e <>& attempt %d\ninterface %s\nmethod Ping() -> ()\n", r.nreg, op.I)
+		if op.I == "i2" {
+			desc = "" // whatever text was registered is reported unchanged - also none at all
+		}
 		r.nreg++
 		err := r.svc.RegisterInterface(&plainIface{name: op.I, desc: desc})
 		res := "ok"
